@@ -262,7 +262,7 @@ returns what was written (C05).  A close message read without a hint or against 
 the byte level (`has_token_heuristic`; the last four bytes of the reason taken for a token): the
 adversary picks the outcome — what was written, a read error, or a close message with any token and
 reason (the header, hence the ack, is not affected).  Any other packet read against the hint is a
-read error here; `Tw.Proofs.ConnSafety6` shows that this case does not occur.  `tokenless`: the
+read error here; this case does not occur (`misread`, `Tw.Props.C01.wire_hint_consistent`).  `tokenless`: the
 peer does not use the token (its datagrams are read as written without one). -/
 def wireRead (tokenless : Bool) (p : Packet) (alt : Alt) (h : Option Bool) : Option Packet :=
   let q := if tokenless then strip p else p
@@ -275,6 +275,15 @@ def wireRead (tokenless : Bool) (p : Packet) (alt : Alt) (h : Option Bool) : Opt
       | .error => none
       | .close tok' r' => some (.control ack tok' (.close r'))
   | _ => if h = none ∨ h = some (hasToken q) then some q else none
+
+/-- the case `wireRead` turns into a read error without the code doing so: a packet other than a
+close message read against the hint (`Tw.Props.C01.wire_hint_consistent`: never happens) -/
+def misread (tokenless : Bool) (p : Packet) (h : Option Bool) : Bool :=
+  let q := if tokenless then strip p else p
+  match q with
+  | .connless _ => false
+  | .control _ _ (.close _) => false
+  | _ => !(h == none || h == some (hasToken q))
 
 def call (now : Nat) (draws : List Nat) (c : Conn) : Call → Except Fail (Ret Conn Packet)
   | .connect =>
